@@ -1134,9 +1134,8 @@ class InternalGroupedDataFrame:
 
     def pivot(self, pivot_col, pivot_values):
         if pivot_values is None:
-            pivot_values = sorted(
-                self.jdf.select(collect_set(pivot_col)).collect()[0][0]
-            )
+            distinct_values = self.jdf.select(collect_set(pivot_col)).collect()
+            pivot_values = sorted(distinct_values[0][0]) if distinct_values else []
 
         return InternalGroupedDataFrame(
             jdf=self.jdf,
